@@ -144,7 +144,7 @@ Print Assumptions c05_lib_number_needed.
    With a LIB and without a head the MODEL takes the nil-dereference branch (BPanic).  Needed for the model only:
    the real code answers with an error in that state (Block.AsRef of package pbbstream is nil-safe; replayed:
    TestU2_C05_ConfiguredLIBNoHead, TestU2_C05_WildLIBNoHead) - a model infidelity in a state no theorem's hypotheses
-   admit and the correspondence check never produces. *)
+   allow and the correspondence check never produces. *)
 Definition c05_s_nohead : fstate := mkFS (db ex_s) None (last_lib_seen ex_s) (ncalls ex_s).
 Theorem c05_last_sent_needed :
   has_lib (db c05_s_nohead) = true /\ last_sent c05_s_nohead = None /\
